@@ -308,17 +308,17 @@ static Reg r_edgepoly("edgepoly", [](const Args& a) {
 });
 
 // ---- tools/Planimeter, in process ----------------------------------------------------------------------------------
-struct PlanOpt { bool reverse = false, sign = true, polyline = false, longfirst = false, exact = false, geoconvert = false; int linetype = 0; int prec = 6; double a = Constants::WGS84_a(), f = Constants::WGS84_f(); std::string cdelim; bool viastring = false; char lsep = ';'; bool usage_error = false; int expect_rc = 1; };
+struct PlanOpt { bool reverse = false, sign = true, polyline = false, longfirst = false, exact = false, geoconvert = false; int linetype = 0; int prec = 6; double a = Constants::WGS84_a(), f = Constants::WGS84_f(); std::string cdelim; bool viastring = false; char lsep = ';'; bool usage_error = false; int expect_rc = 1; bool version = false; };
 static const std::vector<std::vector<std::string>> plan_variants = {
   {}, {"-r"}, {"-s"}, {"-r", "-s"}, {"-l"}, {"-R"}, {"-R", "-r"}, {"-R", "-s"}, {"-R", "-l"}, {"-E"}, {"-R", "-E"}, {"-G"}, {"-Q"}, {"-Q", "-E"}, {"-Q", "-s"},
   {"-p", "0"}, {"-p", "10"}, {"-p", "3", "-r"}, {"-p", "15"}, {"-p", "-2"}, {"-w"}, {"-w", "-R"}, {"-e", "6378388", "1/297"}, {"-e", "6.4e6", "0"}, {"-e", "6.4e6", "-0.01", "-E"},
   {"--geoconvert-input"}, {"--geoconvert-input", "-w"}, {"--geoconvert-input", "-R"}, {"--comment-delimiter", "#"}, {"--comment-delimiter", "//", "-l"},
-  {"--input-string"}, {"--input-string", "--line-separator", "/"}, {"-r", "-r"}, {"-l", "-l", "-s", "-s"}, {"-R", "-G"}, {"-Q", "-l"},
+  {"--input-string"}, {"--input-string", "--line-separator", "/"}, {"--input-file", "-", "--output-file", "-"}, {"-r", "-r"}, {"-l", "-l", "-s", "-s"}, {"-R", "-G"}, {"-Q", "-l"},
   // usage errors: exit status 1, nothing on standard output
   {"-p", "x"}, {"-e", "6378137"}, {"-e", "abc", "0"}, {"--bogus"}, {"--line-separator", "ab"}, {"-p"}, {"--input-string", "--input-file", "nonexistent"},
   {"--input-file", "/nonexistent/verif-c08"}, {"-e", "6378137", "1/0x"}, {"--comment-delimiter"}, {"-r", "-z"},
   // requests for information: exit status 0, no result lines
-  {"-h"}, {"--help"}};
+  {"-h"}, {"--help"}, {"--version"}, {"-r", "--version", "--bogus"}};
 static PlanOpt plan_options(const std::vector<std::string>& v) {
   PlanOpt o;
   for (size_t m = 0; m < v.size(); ++m) { const std::string& s = v[m];
@@ -330,7 +330,9 @@ static PlanOpt plan_options(const std::vector<std::string>& v) {
     else if (s == "-h" || s == "--help") { o.usage_error = true; o.expect_rc = 0; break; }
     else if (s == "-p") { if (m + 1 >= v.size()) { o.usage_error = true; break; } try { o.prec = Utility::val<int>(v[++m]); } catch (const std::exception&) { o.usage_error = true; } }
     else if (s == "-e") { if (m + 2 >= v.size()) { o.usage_error = true; break; } try { o.a = Utility::val<double>(v[m + 1]); o.f = Utility::fract<double>(v[m + 2]); } catch (const std::exception&) { o.usage_error = true; } m += 2; }
-    else if (s == "--input-file") { o.usage_error = true; ++m; }
+    else if (s == "--input-file") { if (m + 1 < v.size() && v[m + 1] == "-") ++m; else { o.usage_error = true; ++m; } }
+    else if (s == "--output-file") { if (m + 1 < v.size() && v[m + 1] == "-") ++m; else { o.usage_error = true; ++m; } }
+    else if (s == "--version") { o.usage_error = true; o.expect_rc = 0; o.version = true; break; }
     else o.usage_error = true;
   }
   return o;
@@ -381,6 +383,7 @@ static Reg r_planim("planim", [](const Args& a) {
   std::string output; int rc = run_planimeter(v, input, o.viastring, o.lsep, output);
   if (rc < -90) { emit("crash"); return; }
   if (o.usage_error) { emit("usage " + std::to_string(rc) + " " + std::to_string(output.size()));
+    if (o.version) { if (rc != 0 || output.find("GeographicLib version") == std::string::npos || split_lines(output).size() != 1) badx("tool-usage-error", "Planimeter --version: exit status " + std::to_string(rc) + ", output '" + output + "'"); return; }
     if (rc != o.expect_rc || !output.empty()) badx("tool-usage-error", "Planimeter: command line that asks for no computation gives exit status " + std::to_string(rc) + " (expected " + std::to_string(o.expect_rc) + ") and " + std::to_string(output.size()) + " bytes of output"); return; }
   std::string text, tags; std::vector<unsigned> nums;
   // --input-string: the text without its final newline, newlines written as the separator (an empty string means
